@@ -121,7 +121,41 @@ class MixedTable:
 MIXED = MixedTable()
 
 
+_MIXED_TD = {}
+
+
+def _mixed_topdown(n, s):
+    """M(n, s) by memoised recursion over the sub-problems that are really
+    reached: cheap when n - s is small however large s is (the bottom-up
+    table needs every row below s)."""
+    if n <= s + 1:
+        return n
+    if s == 1:
+        return n * (n + 1) // 2 - 1
+    key = (n, s)
+    v = _MIXED_TD.get(key)
+    if v is None:
+        v = 1 + _mixed_topdown(n - 1, s - 1)
+        for i in range(2, n):
+            # i + M(i, s) + M(n - i, s - 1) >= 2 i + (n - i): prune
+            if n + i >= v:
+                break
+            c = i + _mixed_topdown(i, s) + _mixed_topdown(n - i, s - 1)
+            if c < v:
+                v = c
+        _MIXED_TD[key] = v
+    return v
+
+
 def mixed_total(n, s):
+    if n > 1 and min(s, n - 1) > 64 and n - min(s, n - 1) <= 40:
+        import sys
+        old = sys.getrecursionlimit()
+        sys.setrecursionlimit(max(old, 6 * n + 1000))
+        try:
+            return _mixed_topdown(n, min(s, n - 1))
+        finally:
+            sys.setrecursionlimit(old)
     return MIXED.M(n, s)
 
 
